@@ -1,7 +1,9 @@
 #!/bin/sh
 # runs every confirmed seed against the check of its own property (and optionally all); prints one line per seed
 cd /verif
-for d in seeded/*/; do
+PAT="${1:-*}"
+for d in seeded/$PAT/; do
+  case "$d" in seeded/obsolete/*) continue;; esac
   s=$(basename $d); prop=${s%%-*}
   if ! git -C /repo apply --check "/verif/$d/patch.diff" 2>/dev/null; then echo "$s: PATCH DOES NOT APPLY to current /repo"; continue; fi
   git -C /repo apply "/verif/$d/patch.diff"
